@@ -741,7 +741,34 @@ func (s *rs_sim) restart(r *rs_rep) {
 	// production rebuilds the raft storage from the newest snapshot and the WAL entries behind
 	// it (node/raft.go replayWAL): nothing at or below the snapshot index survives a restart
 	snap, _ := r.st.Snapshot()
-	if snap.Metadata.Index > 0 {
+	if old, isRocks := r.st.(*raft.RocksStorage); isRocks {
+		// cold caches: a new RocksStorage object over the same engine, rebuilt the way replayWAL
+		// rebuilds the raft storage (ApplySnapshot, SetHardState, Append of the entries behind the
+		// snapshot) - the entries are what the ENGINE holds, read without the old object's caches
+		hs, _, _ := old.InitialState()
+		ns := raft.NewRocksStorage(r.id, 1, false, old.Eng())
+		var ents []pb.Entry
+		if fi, e1 := ns.FirstIndex(); e1 == nil {
+			if li, e2 := ns.LastIndex(); e2 == nil {
+				lo := fi
+				if snap.Metadata.Index+1 > lo {
+					lo = snap.Metadata.Index + 1
+				}
+				if li >= lo {
+					ents, _ = ns.Entries(lo, li+1, 1<<62)
+					ents = append([]pb.Entry{}, ents...)
+				}
+			}
+		}
+		if snap.Metadata.Index > 0 {
+			ns.ApplySnapshot(snap)
+		}
+		ns.SetHardState(hs)
+		if len(ents) > 0 {
+			ns.Append(ents)
+		}
+		r.st = ns
+	} else if snap.Metadata.Index > 0 {
 		r.st.Compact(snap.Metadata.Index)
 	}
 	r.appIdx, r.appTerm = snap.Metadata.Index, snap.Metadata.Term
@@ -906,6 +933,14 @@ func (s *rs_sim) proposeConfRandom(r *rs_rep) {
 	switch {
 	case rs_contains(v.Voters, target):
 		if len(v.Voters) <= 2 && !s.allow1 {
+			return
+		}
+		if target == r.id {
+			// the leader is not asked to remove itself: the driver stops a replica as soon as it
+			// applies its own removal (as the data node does), and a leader that stops before the
+			// others learn the commit index can leave a group whose only other up-to-date voter
+			// cannot win an election (observed: the promoted learner still lags) - liveness only
+			s.inc("leader_self_removal_avoided")
 			return
 		}
 		if len(v.Voters) <= 1 {
@@ -1627,6 +1662,100 @@ func (s *rs_sim) scenarioVoteSameTerm() {
 	s.blocked = map[uint64]bool{}
 }
 
+// scenarioDivergentSuffix (rocks-* storages; from MC_ZRaft_Log behaviours with a leader change):
+// leader A persists a run of entries nobody else gets, the others elect B and commit FEWER
+// entries, then A hears from B again - either an append that truncates A's longer suffix and
+// leaves a SHORTER log (variant 0), or, after B snapshotted and compacted, a snapshot installed
+// over A's longer divergent log (variant 1).  What A's storage holds afterwards is what a
+// restart (and raftLog.lastIndex) will see.
+func (s *rs_sim) scenarioDivergentSuffix(variant int) {
+	s.phase = "divergent-suffix"
+	s.blocked = map[uint64]bool{}
+	a := s.electLeader()
+	if a == 0 {
+		return
+	}
+	ar := s.reps[a]
+	av := raft.VerifState(ar.n)
+	for _, id := range s.ids {
+		if id != a {
+			s.blocked[id] = true
+		}
+	}
+	for i := 0; i < 3+s.rng.Intn(3) && s.live(ar); i++ {
+		s.finishReady(ar)
+		if s.live(ar) && ar.rd == nil {
+			s.proposeSized(ar, 0)
+		}
+	}
+	if !s.live(ar) {
+		s.blocked = map[uint64]bool{}
+		return
+	}
+	s.finishReady(ar)
+	s.blocked = map[uint64]bool{a: true}
+	var b uint64
+	for k := 0; k < 120 && b == 0 && !s.panicked; k++ {
+		for _, id := range av.Voters {
+			r := s.reps[id]
+			if id == a || !s.live(r) {
+				continue
+			}
+			s.drain(r)
+			if v := raft.VerifState(r.n); v.Role == "StateLeader" && v.Term > av.Term {
+				b = id
+			} else if s.live(r) && r.rd == nil {
+				s.tick(r)
+			}
+		}
+		s.calmRounds(1)
+	}
+	if b == 0 {
+		s.blocked = map[uint64]bool{}
+		return
+	}
+	br := s.reps[b]
+	s.calmRounds(2)
+	if s.live(br) && br.rd == nil {
+		s.proposeSized(br, 0)
+	}
+	s.calmRounds(3)
+	if variant == 1 && s.live(br) {
+		s.drain(br)
+		before := s.cnt["snapshots_taken"]
+		s.snapshot(br)
+		if s.cnt["snapshots_taken"] > before {
+			if snap, _ := br.st.Snapshot(); snap.Metadata.Index > 0 {
+				br.st.Compact(snap.Metadata.Index) // the follower must need the snapshot
+			}
+		}
+	}
+	if variant == 1 {
+		// what B sent to A while A was cut off is lost: A first hears from B after the compaction
+		kept := s.net[:0]
+		for _, m := range s.net {
+			if m.To != a && m.From != a {
+				kept = append(kept, m)
+			}
+		}
+		s.net = kept
+	}
+	s.inc("scenario_divergent_suffix_healed")
+	s.blocked = map[uint64]bool{}
+	s.calmRounds(8)
+	if variant == 0 && s.live(ar) {
+		// what does a restart (cold storage caches) see after the suffix was replaced by a shorter one?
+		s.drain(ar)
+		if s.live(ar) && ar.rd == nil {
+			s.crash(ar)
+			if ar.down && !ar.gone {
+				s.restart(ar)
+			}
+			s.calmRounds(3)
+		}
+	}
+}
+
 // scenarioGrowOne (profile growone; from MC_ZRaft_Conf behaviours and the restart rule): the
 // group grows from the single voter 1; replica 1 snapshots while it is alone, more than one
 // Ready page of ordinary entries and then AddNode 2, AddNode 3 follow in its log; 1 crashes,
@@ -2107,6 +2236,10 @@ func raftsim(args []string) error {
 		}
 		if (s.cfg.Profile == "mixed" || s.cfg.Profile == "noconf") && !s.cfg.PreVote && !s.cfg.CQ && len(s.cfg.Voters) >= 3 {
 			s.scenarioVoteSameTerm()
+		}
+		if (s.cfg.Profile == "mixed" || s.cfg.Profile == "noconf") && strings.HasPrefix(s.storage, "rocks") && len(s.cfg.Voters) >= 3 {
+			s.scenarioDivergentSuffix(int(*seed) % 2)
+			s.scenarioDivergentSuffix(int(*seed+1) % 2)
 		}
 		if s.cfg.Profile == "stall" {
 			for i := 0; i < 3 && !s.panicked; i++ {
